@@ -36,7 +36,7 @@ func NewSet() *Set {
 func (s *Set) String() string {
 	codes, space := "[", ""
 	node := s.Head.Forward
-	for node.Forward != nil {
+	for node != nil && node.Forward != nil {
 		for code := node.Begin; code <= node.End; code++ {
 			codes += space + fmt.Sprintf("%v", code)
 			space = " "
